@@ -101,6 +101,7 @@ steps!(r0_clone_raw_a32, r0_drop_raw_a32, r0_cdd_raw_a32, 5, Raw<S33a32>, mk_a32
 steps!(q_clone_arc_hs, q_drop_arc_hs, q_cdd_arc_hs, 5, Arc<HS<Dt, Dt>>, mk_hs_n::<2>());
 steps!(q_clone_thin_hs, q_drop_thin_hs, q_cdd_thin_hs, 5, ThinArc<Dt, Dt>, mk_hs_n::<2>());
 steps!(q_clone_rawthin_hs, q_drop_rawthin_hs, q_cdd_rawthin_hs, 5, RawThin<Dt, Dt>, mk_hs_n::<2>());
+steps!(q_clone_swapthin_hs, r0_drop_swapthin_hs, r1_cdd_swapthin_hs, 5, SwpThin<Dt, Dt>, mk_hs_n::<1>());
 steps!(t_clone_thin_hs3, t_drop_thin_hs3, t_cdd_thin_hs3, 5, ThinArc<Dt, Dt>, mk_hs_n::<3>());
 steps!(t_clone_arc_hs3, t_drop_arc_hs3, t_cdd_arc_hs3, 5, Arc<HS<Dt, Dt>>, mk_hs_n::<3>());
 // ---- slice / str / dyn
